@@ -40,7 +40,7 @@ package graphsync
 //@   modifies m.m
 //@   guarantee [sets-only-key] forall k graphsync.RequestID :: (k == key ==> has(self.m, k) && self.m[k].channelID == chid && self.m[k].sending == sending) &&
 //@       (k != key ==> has(self.m, k) == old(has(self.m, k)) && (has(self.m, k) ==> self.m[k] == old(self.m[k])))
-//@ func (*graphsync.requestIDToChannelIDMap).deleteRefs {C16,C20}
+//@ func (*graphsync.requestIDToChannelIDMap).deleteRefs {C16,C20,C09}
 //@   acquires {C20} requestIDToChannelIDMap.lk
 //@   modifies m.m
 //@   loop 0 invariant [progress] forall k graphsync.RequestID ::
